@@ -292,7 +292,14 @@ func runShape(c *mc.Ctx, sh shape, br *o4h.Bridge, seed int64, quick bool) {
 			}
 		} else {
 			s.Spawn("ref-server", func() {
-				rs, refErr = o4h.RefServer(sw, br.ID, o4h.ServerOpts{PadLen: 10, LenSeed: br.Seed, SeparateSeed: false}, refRnd)
+				so := o4h.ServerOpts{PadLen: 10, LenSeed: br.Seed, SeparateSeed: false}
+			if sh.phase == "after-seed-coalesced" {
+				// a server that speaks first: its first data frame travels in the
+				// same segment as the response and the seed frame, so the client
+				// decodes the seed frame and another frame in one pass
+				so.WithData = []byte{0x42}
+			}
+			rs, refErr = o4h.RefServer(sw, br.ID, so, refRnd)
 				if refErr != nil {
 					sw.Close()
 					return
@@ -324,6 +331,13 @@ func runShape(c *mc.Ctx, sh shape, br *o4h.Bridge, seed int64, quick bool) {
 				n, err := conn.Read(b)
 				if err != nil || n != 1 || b[0] != 0x42 {
 					realErr = fmt.Errorf("client Read of the first server byte: n=%d err=%v", n, err)
+				}
+			}
+			if realErr == nil && sh.phase == "after-seed-coalesced" {
+				b := make([]byte, 8)
+				n, err := conn.Read(b)
+				if err != nil || n != 1 || b[0] != 0x42 {
+					realErr = fmt.Errorf("client Read of the server's greeting: n=%d err=%v", n, err)
 				}
 			}
 		}
@@ -744,7 +758,7 @@ func main() {
 						for _, role := range []string{"server", "client"} {
 							phases := []string{""}
 							if role == "client" {
-								phases = []string{"before-seed", "after-seed"}
+								phases = []string{"before-seed", "after-seed", "after-seed-coalesced"}
 							} else if size == 1428 || size == 20 {
 								phases = []string{"", "peer-sent-seed", "later-connection"}
 							}
